@@ -143,6 +143,11 @@ structure Graph where
   triggers -- the new object even when the pool already holds a proxy of that instance, so that a second,
   unpooled object is submitted (`true`, code as found); `false`: such an object is dropped (repaired) -/
   triggerUnpooled : Bool := true
+  /-- behaviour flag (probed from the live code): when `_load_historical_outputs` finds rows that overlap the
+  proxy's flows but none of *exactly* its flows, fresh (empty) `task_states` / `task_outputs` rows are queued:
+  `0` never (code as first found), `1` always (cylc-flow ec8c5af), `2` unless the proxy is a finished and
+  complete instance that `spawn_task` will not spawn (repair of finding `queued-row-survives-removal`) -/
+  rowInsertMode : Nat := 0
   deriving Repr, Inhabited
 
 /-- number of instances + 2: bounds the `spawn_task` ↔ `spawn_on_all_outputs` recursion -/
@@ -522,7 +527,15 @@ def loadDbTaskProxy (g : Graph) (s : State) (name : String) (p : Int) (flows : L
       let seen := info.filter fun e => !(interF flows e.2).isEmpty
       let x := seen.foldl (fun (y : Proxy) e =>
           e.1.foldl (fun (z : Proxy) m => if z.done.contains m then z else { z with done := z.done ++ [m] }) y) x
-      if seen.isEmpty then (dbAddNewFlowRows s x, some x) else (s, some x)
+      -- no row of exactly these flows (`itask.flow_nums not in info.values()`)
+      let noExact := !(info.any fun e => e.2 == flows)
+      let finishedComplete := status.isFinal &&
+        (match g.task? name with | some t => isComplete t x.done | none => true)
+      let extra := match g.rowInsertMode with
+        | 0 => false
+        | 1 => noExact
+        | _ => noExact && !finishedComplete
+      if seen.isEmpty || extra then (dbAddNewFlowRows s x, some x) else (s, some x)
 
 /-- children of an output of an instance (`graph_children`) -/
 def childrenOfInst (g : Graph) (name : String) (p : Int) (out : String) : List Child :=
